@@ -2,7 +2,7 @@
    implementation wrote for the observed model state, and the model's decoder applied to the
    implementation's bytes must give back that state. *)
 From Coq Require Import List NArith ZArith Arith Bool.
-From Dimod Require Import Base.Util Gen.Gen_Codec Model.Codec Model.Rebuild.
+From Dimod Require Import Base.Util Gen.Gen_Codec Model.Codec Model.Rebuild Gen.Gen_Loaders Model.Loaders.
 Import ListNotations.
 
 Definition N_eqb := N.eqb.
@@ -70,9 +70,10 @@ Definition adj_eqb := list_eqb (list_eqb nbn_eqb).
 
 (* the loader's add_quadratic calls replayed on what the file holds give the observed adjacency;
    `+=` on an existing entry never happens on a well-formed file: it is made to poison the result *)
+Definition poison (_ _ : bytes) : bytes := [999%N].
 Definition bqm_rebuild_ok (adj : list (list (N * bytes))) : bool :=
   let a := map nb_nat adj in
-  adj_eqb (rebuild_upsert (fun _ _ => [999%N]) (fun b => b) (lowers a)) a.
+  adj_eqb (bqm_load_adjacency poison (fun b => b) a) a.
 
 Definition check (c : case) : bool :=
   match c with
@@ -87,7 +88,7 @@ Definition check (c : case) : bool :=
             |> fun r => match r with Ok cs => Ok (map (dec_vinfo 8) cs) | Err => Err end) vi
   | CAdj full low =>
       let a := map nb_nat full in
-      adj_eqb (lowers a) (map nb_nat low) && adj_eqb (rebuild (map nb_nat low)) a
+      adj_eqb (lowers a) (map nb_nat low) && adj_eqb (qm_load_adjacency poison (fun b => b) (map nb_nat low)) a
   | CLabels l js => bytes_eqb (pr_labels l) js
                     && match labels_dec js with Some l' => list_eqb label_eqb l' l | None => false end
   end.
